@@ -69,6 +69,13 @@ def eval_pair(case):
         K = implementer(I)(type('K', (), {'m': mkfunc(sig_src(mr, mo, mva, mkw, self=True))}))
         cand = K()
         impl, bound, v = cand.m, False, verifyObject
+    elif kind == 'method-noself':
+        # the implementation takes its instance through *args: def m(*args[, **kw])
+        if mr or mo or not mva:
+            return None, None
+        K = implementer(I)(type('K', (), {'m': mkfunc(sig_src(0, 0, 1, mkw))}))
+        cand = K()
+        impl, bound, v = cand.m, False, verifyObject
     elif kind == 'class':
         K = implementer(I)(type('K', (), {'m': mkfunc(sig_src(mr, mo, mva, mkw, self=True))}))
         cand = K
@@ -235,6 +242,9 @@ def evaluate(arg):
         n += 1
         if kind == 'pair':
             v, exp = eval_pair(case)
+            if exp is None and v is None:
+                n -= 1
+                continue
             acc += bool(exp)
             rej += not exp
         elif kind == 'reuse':
@@ -264,7 +274,7 @@ def run(ctx):
     GRID = list(itertools.product(range(mx), range(mx), (0, 1), (0, 1)))
     big = 2 * mx + 5          # more surplus positionals than any implementation in the grid absorbs
     cases = [('pair', (a, b, k, big)) for a in GRID for b in GRID
-             for k in ('func-attr', 'method', 'class', 'staticmethod-on-provider')]
+             for k in ('func-attr', 'method', 'class', 'staticmethod-on-provider', 'method-noself')]
     for r in range(0, len(DEFECTS) + 1):
         for flags in itertools.combinations(DEFECTS, r):
             for tentative in (False, True):
